@@ -1026,6 +1026,10 @@ spifconf_parse(spif_charptr_t conf_name, const spif_charptr_t dir, const spif_ch
             remove((char *) file_peek_outfile());
             FREE(file_peek_outfile());
         }
+        if (file_peek_path() != conf_name) {
+            /* The path of an %include'd file is a copy made by spifconf_parse_line(). */
+            FREE(file_peek_path());
+        }
         file_pop();
     }
     if (*orig_dir) {
